@@ -17,7 +17,7 @@ CLAIMS = {
          "Lean 4 proof: induction on count + bv_decide step lemmas; exhaustive byte-level differential tie"),
  "C03": ("Lean 4 theorems: MUL/IMUL exact double-width product with CF=OF iff upper half significant, DIV/IDIV truncating quotient/remainder with the divide-error outcome exactly when divisor 0 or quotient does not fit (never a crash), AAA/AAS/DAA/DAS/AAM/AAD/CBW/CWD per the manual, for all AX/DX/operands/flag words. Byte IMUL CF/OF is an open known finding. Tie: differential run incl. quotient-overflow boundary and all 2^16 AX for the adjusts; instruction level (INT 0 outcome, operand forms) at L2.",
          "Lean 4 proof (bv_decide) of model satisfies spec predicate + differential tie to the Rust code"),
- "C04": ("Lean 4 theorems for ALL register/segment/displacement values: the address computed by the model of `memory_addr` equals (segment*16 + 16-bit wrapping offset) mod 2^20 with the SS-for-BP / DS default and override rule (resolve_eq, off16_sum, seg_*), data label = DS*16+offset, words little-endian with the second byte at (a+1) mod 2^20 and a word write touching exactly two cells, byte registers alias their half (get/set laws, frame), LEA = 16-bit offset without memory/flag effect (lea_partial: segment DS; the SS/override case is the open finding KF-LEA-SEG pinned by test_lea, with witness). Tie: L2 differential run of the real interpreter on pattern-filled memory over all operand shapes.",
+ "C04": ("Lean 4 theorems for ALL register/segment/displacement values (and, through exec_refines, for every instruction family that takes an operand): the address computed by the model of `memory_addr` equals (segment*16 + 16-bit wrapping offset) mod 2^20 with the SS-for-BP / DS default and override rule (resolve_eq, off16_sum, seg_*), data label = DS*16+offset, words little-endian with the second byte at (a+1) mod 2^20 and a word write touching exactly two cells, byte registers alias their half (get/set laws, frame), LEA = 16-bit offset without memory/flag effect (lea_partial: segment DS; the SS/override case is the open finding KF-LEA-SEG pinned by test_lea, with witness). Tie: L2 differential run of the real interpreter on pattern-filled memory over all operand shapes.",
          "Lean 4 proof (case analysis + omega/bv_decide) over the interpreter model + L2 differential tie"),
  "C05": ("Lean 4 theorems: for every machine state and operand form, the model of MOV/XCHG/PUSH/POP/PUSHF/POPF/LAHF/SAHF/XLAT yields exactly the state of the reference semantics (`*_refines`), i.e. copies/swaps completely, SS:SP with SP +-2 mod 2^16, nothing else changes. Tie: L2 differential run incl. SP=0/1/FFFFh and SS:SP at the top of memory, and straight-line push/pop interleavings up to length 64/2000.",
          "Lean 4 proof of refinement model -> reference semantics + L2 differential tie (single steps and sequences)"),
@@ -25,7 +25,7 @@ CLAIMS = {
          "Lean 4 proof over source-generated tables (bv_decide, decide +kernel) + exhaustive L2 differential tie"),
  "C07": ("Lean 4 theorems: one execution of each string instruction (model of string.rs) equals the reference for ALL DS/ES/SI/DI/AX/flags/memory (strStep_eq_strRef: DS:SI source, ES:DI destination, little-endian words, +-1/+-2 by DF mod 2^16, CMPS/SCAS = flags of SUB, nothing written); rep_protocol: driving the line until it stops answering REPEAT terminates within CX+1 calls and equals the reference loop for EVERY CX (induction, unbounded), REPE/REPNE stop conditions; rep_exact: exactly CX body executions, CX ends 0; rep_zero. Tie: L2 single steps + the REPEAT protocol driven to completion on the real interpreter for CX 0..64 and larger.",
          "Lean 4 proof (bv_decide for flags, induction on CX for the protocol) + L2 differential tie incl. protocol runs"),
- "C09": ("Lean 4 theorems: the model's exec is a total function whose memory indices are all < 2^20 before the memory primitive reduces them (calcAddr_lt, incAddr_lt, resolve*_inRange, read/write_in_range: the modulo in the model never hides an out-of-range index), word access at 0xFFFFF wraps to 0, reported errors arise only from undefined names / empty call stack / unsupported interrupt (exec_ok_*). Rust-level aborts (overflow, shift, index) cannot be exhibited by the model: they are decided by the L2 run of the real interpreter built with overflow checks under catch_unwind on adversarial states and near-miss lines — a PANIC is a violation.",
+ "C09": ("Lean 4 theorems: exec_refines — for EVERY instruction with parser-producible operands, every machine state and assembler-producible context the model of the interpreter refines the reference semantics (same outcome, context and machine up to the flag bits the manual leaves undefined), outside the classes of the open findings; the model's exec is a total function whose memory indices are all < 2^20 before the memory primitive reduces them (calcAddr_lt, incAddr_lt, resolve*_inRange, read/write_in_range: the modulo in the model never hides an out-of-range index), word access at 0xFFFFF wraps to 0, reported errors arise only from undefined names / empty call stack / unsupported interrupt (exec_ok_*). Rust-level aborts (overflow, shift, index) cannot be exhibited by the model: they are decided by the L2 run of the real interpreter built with overflow checks under catch_unwind on adversarial states and near-miss lines — a PANIC is a violation.",
          "Lean 4 proof of address bounds/totality of the model + L2 differential run with panic detection (partial: Rust aborts are only observed, not proved absent)"),
  "C08": ("Lean 4 theorems for every context/machine: a label is bound to the index of the instruction emitted next and every emission appends exactly one line (label_then_instr, code_grows_by_push: so a label before a procedure, macro use or print still denotes the next instruction; last label = the appended hlt), procedure name = first body instruction, closing brace emits ret, start index = CODE label start; one run-loop step: NEXT -> idx+1, JMP n -> n, REPEAT -> idx, HALT stops with nothing executed after (loop_*); CALL pushes cur+1 and RET pops the most recent address, nested calls return in LIFO order for any depth (nested_returns, induction). Tie: the real binary's executed-instruction trace and final state (verification hook) vs the model's run loop on generated structured programs.",
          "Lean 4 proof over assembler-action and run-loop models + L4 trace-level differential run against the real binary"),
